@@ -28,14 +28,29 @@ def render (s : St) (outs : List Out) : String :=
   let ts := (outs.filter isTrans).map outStr
   "out=[" ++ " ".intercalate ms ++ "] st=[" ++ " ".intercalate ts ++ "] fsm=" ++
     (if s.deleted then "gone" else toString s.st.num) ++ " admin=" ++ toString s.admin.num ++
-    " rib=" ++ toString s.rib
+    " rib=" ++ toString s.rib ++
+    (if s.st = .established ∧ !s.deleted then " peer=" ++ toString s.remoteAS else "")
 
-/-- an OPEN in wire form: version, My-AS field, 4-octet capability present (0/1) and its value,
-    identifier, hold time -/
-def parseOpen : List String → Option OpenMsg
-  | [v, my, hc, cv, i, h] =>
-    some (OpenWire.toMsg ⟨nat! v, nat! my, if b! hc then some (nat! cv) else none, nat! i, nat! h⟩)
+/-- layout of the optional parameters in one token: parameters separated by `|`; `u` a
+    non-capability parameter; `c:` a capability parameter with its capabilities separated by
+    `,`: `a<value>` the 4-octet-AS capability, anything else another capability; `-` no parameter -/
+def parseCap (t : String) : Cap :=
+  if t.startsWith "a" then .as4 (nat! (t.drop 1).toString) else .other
+
+def parseParam (t : String) : OptParam :=
+  if t.startsWith "c:" then
+    .caps ((((t.drop 2).toString.splitOn ",").filter (· ≠ "")).map parseCap)
+  else .unknown
+
+def parseLayout (t : String) : List OptParam :=
+  if t == "-" then [] else ((t.splitOn "|").filter (· ≠ "")).map parseParam
+
+/-- an OPEN in wire form: version, My-AS field, parameter layout, identifier, hold time -/
+def parseWire : List String → Option OpenWire
+  | [v, my, lay, i, h] => some ⟨nat! v, nat! my, parseLayout lay, nat! i, nat! h⟩
   | _ => none
+
+def parseOpen (ts : List String) : Option OpenMsg := (parseWire ts).map OpenWire.toMsg
 
 def parseEv : List String → Option Ev
   | ["connect"] => some .connect
@@ -66,8 +81,8 @@ def step (d : DSt) (ts : List String) : DSt × List String :=
       let (s', outs) := Fsm.step d.cfg d.s e
       ({ d with s := s' }, [render s' outs])
     | none => (d, ["bad-op"])
-  | ["dom", lid, las, rid, my, hc, cv] =>
-    let ras := getASN ⟨4, nat! my, if b! hc then some (nat! cv) else none, nat! rid, 0⟩
+  | ["dom", lid, las, rid, my, lay] =>
+    let ras := getASN ⟨4, nat! my, parseLayout lay, nat! rid, 0⟩
     (d, [if dominant (nat! lid) (nat! las) (nat! rid) ras then "1" else "0"])
   | "vopen" :: las :: lid :: pas :: r =>
     match parseOpen r with
@@ -77,8 +92,8 @@ def step (d : DSt) (ts : List String) : DSt × List String :=
            | some sub => s!"2-{sub}"])
     | none => (d, ["bad-op"])
   | "collide" :: path :: las :: lid :: pas :: r =>
-    -- two OPENs in wire form (6 tokens each): the accepted connection's, then the outgoing one's
-    match parseOpen (r.take 6), parseOpen (r.drop 6) with
+    -- two OPENs in wire form (5 tokens each): the accepted connection's, then the outgoing one's
+    match parseOpen (r.take 5), parseOpen (r.drop 5) with
     | some inc, some out =>
       let c : Cfg := ⟨nat! las, nat! lid, nat! pas, 0, 0, 0, 0⟩
       let res := if path == "incoming-first" then collideIncomingFirst c inc out
